@@ -207,6 +207,60 @@ def dump_consts(k: int) -> str:
     return 'ok'
 
 
+class _ReprFloat:
+    """stands for a finite non-zero float whose repr() is a solver-chosen member of the language CPython's repr(float) writes
+    (repr itself is C code on a machine float: its *shape* is the input here, the value is the text's)"""
+    __hash__ = object.__hash__
+
+    def __init__(self, text):
+        self.text = text
+
+    def __repr__(self):
+        return self.text
+
+    def __eq__(self, other):
+        return False
+
+    def __ne__(self, other):
+        return False
+
+
+def float_repr(form: int, d: str, sign: int) -> str:
+    """represent_float on every shape repr(float) produces (fixed notation, exponent with and without a fraction,
+    positive and negative exponents) with free digits: the written text is in the float language and denotes the
+    value of the repr text"""
+    sg = pick(sign, ['', '-'])
+    if form == 0:
+        text = sg + d[:1] + '.' + d[1:]                                           # 1.5, 0.01
+    elif form == 1:
+        text = sg + d[:1] + 'e+1' + d[1:]                                         # 1e+16
+    elif form == 2:
+        text = sg + d[:1] + '.' + d[1:2] + 'e+' + ('1' + d[2:] if len(d) > 2 else '16')   # 1.5e+16
+    elif form == 3:
+        text = sg + d[:1] + 'e-0' + d[1:]                                         # 1e-05
+    else:
+        text = sg + d[:1] + '.' + d[1:2] + 'e-' + ('0' + d[2:] if len(d) > 2 else '07')   # 1.5e-07
+    rep = yaml.representer.SafeRepresenter()
+    try:
+        node = rep.represent_float(_ReprFloat(text))
+    except Exception as ex:
+        not_a_finding(ex)
+        return fail(P, 'dump ' + exc_sig(ex), v=text)
+    reach()
+    if node.tag != T + 'float' or node.style is not None:
+        return 'DUMP float not written as a plain float scalar'
+    out = node.value
+    if yaml.resolver.Resolver().resolve(ScalarNode, out, (True, False)) != T + 'float':
+        return 'DUMP-FLOAT text written for repr %r does not read back as a float' % (text,)
+    r = load_plain(out)
+    if r != 'ok':
+        return 'DUMP-FLOAT ' + r
+    back = yaml.SafeLoader('').construct_document(ScalarNode(node.tag, out))
+    if not _same_value('float', back, float(text)):
+        return 'DUMP-FLOAT text written for repr %r denotes another value' % (text,)
+    return 'ok'
+
+
 def dump_text_plain(kind_i: int, text: str) -> str:
     """replay target of the dump-side language queries: `text` is what the representer writes
     for a value of the given kind; it must resolve to that kind"""
@@ -503,6 +557,14 @@ def jobs(tier):
         js.append(Job('ts-template/%d' % f, ts_template, [lambda form, d, _f=f: form == _f and len(d) == TSL],
                       budget=200 if q else 1800, need_reach=False,
                       bounds='timestamp form %d with %d free characters' % (f, TSL)))
+    isd = lambda x: all('0' <= c <= '9' for c in x)
+    FL = 2 if q else 3
+    for f in range(5):
+        js.append(Job('float-repr/%d' % f, float_repr,
+                      [lambda form, d, sign, _f=f: form == _f and len(d) == FL and isd(d) and 0 <= sign <= 1],
+                      budget=200 if q else 1200,
+                      bounds='represent_float on a repr() text of shape %s with %d free digits and a sign: the output resolves to float '
+                             'and denotes the same number' % (['D.D', 'De+DD', 'D.De+DD', 'De-DD', 'D.De-DD'][f], FL)))
     js.append(Job('int-digit-limit', int_digit_limit, [lambda n, side, sign: 4296 <= n <= 4305 and 0 <= side <= 1 and 0 <= sign <= 2], budget=120,
                   bounds='decimal integers of 4296..4305 digits (the digit count is the solver variable; the text is concrete per path) x load / dump x sign'))
     for n in ([4, 6] if q else [1, 2, 3, 4, 5, 6, 7]):
